@@ -6,6 +6,7 @@ Outcomes are tuples (kind, state, value): expression kinds 'ok' | 'raise'; state
 'next' | 'return' | 'raise' | 'break' | 'continue'.
 """
 import ast
+import os
 import z3
 from .values import *  # noqa
 from .state import *  # noqa
@@ -81,6 +82,11 @@ class Engine:
         self.paths = 0
         self.feas_timeout_ms = 3000
         self.full_feas_timeout_ms = 400
+        # budgets of the feasibility queries are z3 RESOURCE units (deterministic: the same query consumes the same amount whatever the
+        # machine load, ~3 M units per second on this image), so that the set of explored paths - and with it the obligation names the
+        # baseline is keyed by - does not depend on how busy the 16 cores are; the wall-clock caps are only a backstop (10x)
+        self.feas_rlimit = int(os.environ.get("PYVC_FEAS_RLIMIT", "6000000"))
+        self.full_feas_rlimit = int(os.environ.get("PYVC_FULL_FEAS_RLIMIT", "1500000"))
         self.mod = None
         self.cur_contract = None
         self.loop_ordinal = {}
@@ -100,7 +106,8 @@ class Engine:
         self.stats["feas_checks"] += 1
         qf = [c for c in st.pc if not _has_quantifier(c)]
         s = z3.Solver()
-        s.set("timeout", 2000)
+        s.set("timeout", 20000)
+        s.set("rlimit", self.feas_rlimit)
         for c in qf:
             s.add(c)
         for c in lit_axioms():
@@ -113,7 +120,8 @@ class Engine:
             self._feas_cache[key] = True
             return True
         s = z3.Solver()
-        s.set("timeout", self.full_feas_timeout_ms)
+        s.set("timeout", self.full_feas_timeout_ms * 10)
+        s.set("rlimit", self.full_feas_rlimit)
         for c in st.pc:
             s.add(c)
         for c in lit_axioms():
@@ -768,6 +776,15 @@ class Engine:
     def e_Starred(self, node, st, fid):
         raise Unsupported("starred expression outside call")
 
+    def e_Yield(self, node, st, fid):
+        # a generator function executed EAGERLY: only through the hook "yield" (eng, st, value) -> outcomes, which records the value
+        # (e.g. in a ghost trace); the value of the yield expression itself is what the hook returns (None for a plain `yield x`)
+        h = self.hooks.get("yield")
+        if h is None:
+            raise Unsupported("yield (no `yield` hook)")
+        outs = self.eval(node.value, st, fid) if node.value is not None else [("ok", st, NONE)]
+        return self.bind(outs, lambda s, v: h(self, s, v))
+
     def e_Call(self, node, st, fid):
         def after_f(s, f):
             pos_nodes, star_idx = [], []
@@ -787,6 +804,8 @@ class Engine:
                             pos.extend(v.items)
                         elif isinstance(f, VFunc) and f.kind == "builtin" and f.a == "chain":
                             pos.append(VConc(("starred", v)))      # chain(*generator): flattened by the builtin model
+                        elif isinstance(f, VFunc) and f.kind == "abstract" and isinstance(v, VObj) and v.kind == "list":
+                            pos.append(VConc(("starred", v)))      # abstract(*list): the call_abstract hook receives the list itself
                         else:
                             raise Unsupported("star-args of non-tuple")
                     else:
@@ -844,6 +863,8 @@ class Engine:
                 return r
             if v.kind in ("list", "dict", "set", "tlist") or v.cls in getattr(self.reg, "external_classes", ()):
                 return [("ok", st, VFunc("bound", v, name))]
+            if v.kind == "pylist" and name == "append":
+                return [("ok", st, VFunc("bound", v, name))]       # see call_method: append to a list display of concrete length
             if default is not None:
                 return [("ok", st, default)]
             return [self.raise_(st, "AttributeError")]
@@ -1126,6 +1147,9 @@ class Engine:
                     raise Unsupported(f"method {key} has no contract")
         if isinstance(recv, VObj) and recv.kind in ("list", "dict", "set", "tlist"):
             return B.container_method(self, st, recv, name, pos, kw)
+        if isinstance(recv, VObj) and recv.kind == "pylist" and name == "append" and len(pos) == 1 and not kw:
+            # append to a list display of concrete length (heterogeneous / non-scalar entries): one more entry
+            return [("ok", st.updobj(recv.oid, items=tuple(st.objs[recv.oid]["items"]) + (pos[0],)), NONE)]
         if isinstance(recv, VOpaque):
             return [("ok", st, VOpaque(recv.what + "." + name + "()"))]
         if isinstance(recv, VConc) and isinstance(recv.py, dict) and name == "get":
@@ -1320,6 +1344,13 @@ class Engine:
             f = node.value.func
             # logging / warnings: arguments evaluated only for their exceptions are dropped (DESIGN 2.1)
             if isinstance(f, ast.Attribute) and isinstance(f.value, ast.Name) and f.value.id in ("logger", "LOGGER", "warnings"):
+                h = self.hooks.get("log_call")
+                if h:
+                    # a contract module may OBSERVE the call (ghost counter / trace): hook(eng, st, receiver name, method name,
+                    # call node) -> new state or None; the arguments are still not evaluated
+                    r = h(self, st, f.value.id, f.attr, node.value)
+                    if r is not None:
+                        return [("next", r, None)]
                 return [("next", st, None)]
             if isinstance(f, ast.Name) and f.id in ("warn", "print"):
                 return [("next", st, None)]
